@@ -170,7 +170,7 @@ int run_ctl(const std::vector<std::string>& a)
 	}
 	auto live = [&] { int n = 0; for (auto& w : ws) n += !w->finished; return n; };
 	long steps = 0;
-	const long cap = 400L * nt * (npush + npop + 1);
+	const long cap = 100L * nt * (npush + npop + 1);   // round-robin needs far fewer; a livelock is reported as Stuck
 	bool stuck = false;
 	auto step = [&](Worker& w, bool forced) {
 		const char *at = w.label;
